@@ -417,7 +417,7 @@ func runC20(c *Ctx) *Replay {
 				sc.Sched = drawSchedule(c.R, 0, nil)
 				fk = "err"
 			case 2:
-				sc.RFault = &simnet.ReadFault{At: k, Err: simnet.ErrorNames[c.R.Intn(4)], Transient: true}
+				sc.RFault = &simnet.ReadFault{At: k, Err: simnet.ErrorNames[c.R.Intn(4)], Transient: true, Partial: c.R.Bool()}
 				fk = "transient"
 			}
 			viol := execPrims(c.N, &sc)
